@@ -64,7 +64,10 @@ def generate(tape, tier="quick"):
     n_events = tape.weighted([(12, 4), (25, 4), (45, 2), (60, 1)])
     if tier == "thorough" and tape.chance(1, 400):
         n_events = tape.choice([500, 1000, 2000])
-    events = gen_events(tape, n_cons, n_events)
+    # consumers without a delay adapter on their chain: a request beyond the newest publication is refused and
+    # leaves everything as it was, so they continue from their last answered request
+    nodelay = [not any(a["kind"].startswith("delay") for a in c["chain"]) for c in cons]
+    events = gen_events(tape, n_cons, n_events, refused_future_keeps_last=nodelay, future_chance=(1, 3))
     src = {"units": ""}
     if tape.chance(1, 5):
         from ..grids import gen_structured
